@@ -1,5 +1,6 @@
 import OpenFecVerif.Model.Api
 import OpenFecVerif.Proofs.LdpcFin
+import OpenFecVerif.Proofs.PtrId
 /-!
 # C10 — status codes and queries tell the truth about decoding progress (session model)
 
@@ -103,3 +104,16 @@ theorem C10_ldpc_finish_truthful (IO : SymIO σ) (s : Session σ) (p : Params) (
       (∀ e, it.known e = true → it'.known e = true) := by
   obtain ⟨it', h1, h2, h3, h4, _⟩ := LdpcFin.ldpcFinish_truthful IO s p it hit hk
   exact ⟨it', h1, h2, h3, h4⟩
+
+
+/-- **LDPC-Staircase / 2D: pointer identity.**  A source symbol submitted while still unknown is recorded — and from then on reported
+by `of_get_source_symbols_tab` — with the very pointer the application supplied (`app j` = its j-th buffer for that ESI); and the record
+of a symbol that is already known is not touched by any later submission or by `of_finish_decoding`. -/
+theorem C10_ldpc_pointer_identity (IO : SymIO σ) (s : Session σ) (p : Params) (esi j : Nat) (v : σ) (it : IT.St σ) (hit : s.it = some it)
+    (hcons : s.mlConsumed = false) (hrows : ITEvents.RowsLt p.n it) (hesi : esi < p.n) :
+    (it.known esi = false → esi < p.k → (ldpcRecv IO s p esi v j).2.1.srcProv.get esi = some (Prov.app j)) ∧
+    (∀ e, it.known e = true → (ldpcRecv IO s p esi v j).2.1.srcProv.get e = s.srcProv.get e) ∧
+    (it.k = p.k → ∀ e, it.known e = true → (ldpcFinish IO s p).2.1.srcProv.get e = s.srcProv.get e) :=
+  ⟨fun hf hk => PtrId.recv_fresh_identity IO s p esi j v it hit hcons hrows hesi hf hk,
+   fun e he => PtrId.recv_known_stable IO s p esi j v it hit hcons hrows hesi e he,
+   fun hk e he => PtrId.finish_known_stable IO s p it hit hk e he⟩
